@@ -1,0 +1,9 @@
+//go:build verif
+
+package smgp30
+
+// GenAuthenticatorClientForVerif exposes the unexported login authenticator computation to the
+// verification harness (built only with -tags verif).
+func GenAuthenticatorClientForVerif(clientID, secret string, timestamp uint32) ([]byte, error) {
+	return genAuthenticatorClient(clientID, secret, timestamp)
+}
